@@ -106,16 +106,19 @@ def run(ctx):
     real_math = ops.math
     cases, expected, meta = [], [], []
     hist = {0: 0, 1: 0, 2: 0}
-    kinds = {"pareto": 0, "eps": 0, "tie_break": 0, "marker_decides": 0, "identical": 0, "unequal_len": 0}
+    kinds = {"pareto": 0, "eps": 0, "tie_break": 0, "marker_decides": 0, "identical": 0, "unequal_len": 0,
+             "same_list_object_as_both_arguments": 0}
 
-    def impl(eps, p, pm, q, qm):
+    def impl(eps, p, pm, q, qm, same=False):
         shim.tape = []
         ops.math = shim
         try:
+            a = list(p) + [pm]
+            b = a if same else list(q) + [qm]     # same: ONE list object offered as both arguments (red-team round 5)
             if eps is None:
-                v = pareto.compare(list(p) + [pm], list(q) + [qm])
+                v = pareto.compare(a, b)
             else:
-                v = ops.EpsilonDominance(eps if len(eps) != 1 or ctx.rng.random() < 0.5 else eps[0]).compare(list(p) + [pm], list(q) + [qm])
+                v = ops.EpsilonDominance(eps if len(eps) != 1 or ctx.rng.random() < 0.5 else eps[0]).compare(a, b)
         finally:
             ops.math = real_math
         return v, list(shim.tape)
@@ -127,7 +130,7 @@ def run(ctx):
     persist, bufs = {}, {}
     kinds_hist = {"history_calls": 0}
 
-    def impl_history(eps, p, pm, q, qm):
+    def impl_history(eps, p, pm, q, qm, same=False):
         key = None if eps is None else tuple(eps)
         if key not in persist:
             persist[key] = pareto if eps is None else ops.EpsilonDominance(list(eps))
@@ -137,18 +140,22 @@ def run(ctx):
         bq[:] = list(q) + [qm]
         ops.math = shim
         try:
-            return persist[key].compare(bp, bq)
+            return persist[key].compare(bp, bp if same else bq)
         finally:
             ops.math = real_math
 
-    def add_case(eps, p, pm, q, qm):
+    def add_case(eps, p, pm, q, qm, same=False):
+        """same=True: q, qm are p, pm and the implementation is given ONE list object as both arguments (an individual
+        offered to an archive twice, a particle and its personal best held by reference, a copy sharing costs_signed);
+        the model is evaluated on (p, p): a function of the values only."""
+        assert not same or (q == p and qm is pm)
         try:
-            v, tape = impl(eps, p, pm, q, qm)
+            v, tape = impl(eps, p, pm, q, qm, same)
         except ZeroDivisionError:
             if eps is not None and any(float(e) == 0 for e in eps):
                 return None       # eps = 0 is outside the property (positive epsilons); the code divides by it in the tie-break
             raise
-        vh = impl_history(eps, p, pm, q, qm)
+        vh = impl_history(eps, p, pm, q, qm, same)
         kinds_hist["history_calls"] += 1
         if vh != v:
             what = ("comparator verdict depends on call history / object identity: %d from a long-lived comparator given re-used "
@@ -163,6 +170,9 @@ def run(ctx):
         expected.append("%d%%nat" % v)
         m = {"comparator": "pareto" if eps is None else "epsilon", "eps": eps, "p": p, "pm": pm, "q": q, "qm": qm,
              "pow_tape": tape, "verdict": v}
+        if same:
+            m["same_list_object_as_both_arguments"] = True
+            kinds["same_list_object_as_both_arguments"] += 1
         meta.append(m)
         hist[v] = hist.get(v, 0) + 1
         kinds["pareto" if eps is None else "eps"] += 1
@@ -174,19 +184,20 @@ def run(ctx):
             kinds["identical"] += 1
         if len(p) != len(q):
             kinds["unequal_len"] += 1
-        ctx.count((eps is None, tuple(p), pm, tuple(q), qm, tuple(eps or ())), nontrivial=(p != q or pm != qm))
+        ctx.count((eps is None, tuple(p), pm, tuple(q), qm, tuple(eps or ()), same), nontrivial=(p != q or pm != qm))
         if len(ctx.samples) < 4 and (len(p) > 1):
             ctx.sample(m)
         return v
 
-    def oracle_pair(eps, p, pm, q, qm, v):
+    def oracle_pair(eps, p, pm, q, qm, v, same=False):
         if len(p) != len(q):
             return
+        note = {"same_list_object_as_both_arguments": True} if same else {}
         if eps is None:
             want = textbook(p, pm, q, qm)
             if v != want:
                 ctx.oracle_failures.append({"what": "Pareto comparator verdict %d, textbook definition %d" % (v, want),
-                                            "input": {"p": p + [pm], "q": q + [qm]}, "match": {"kind": "pareto_pair", "p": p + [pm], "q": q + [qm]}})
+                                            "input": dict(note, p=p + [pm], q=q + [qm]), "match": {"kind": "pareto_pair", "p": p + [pm], "q": q + [qm]}})
         else:
             ef = [float(e) if float(e) != 0 else 1e-3 for e in eps]
             sep = all(((p[i] < q[i]) == (p[i] / ef[i % len(ef)] < q[i] / ef[i % len(ef)])) and
@@ -195,7 +206,7 @@ def run(ctx):
             if identical:
                 if v not in (1, 2):
                     ctx.oracle_failures.append({"what": "epsilon comparator names no loser for identical vectors (verdict %d)" % v,
-                                                "input": {"eps": eps, "p": p + [pm], "q": q + [qm]},
+                                                "input": dict(note, eps=eps, p=p + [pm], q=q + [qm]),
                                                 "match": {"kind": "eps_identical", "p": p + [pm], "eps": eps}})
             elif sep:
                 want = textbook(p, pm, q, qm)
@@ -214,10 +225,28 @@ def run(ctx):
         ([1e6], [1.0], True, [2.0], True), ([0.5], [1.0, 2.0], 0, [2.0, 1.0], 0),
         ([3], [1.0, 5.0], True, [1.0, 6.0], True), ([0.1], [1.0], True, [1.0], 2),
     ]
+    def self_pair(eps, p, pm):
+        """compare(v, v) with ONE list object: Pareto must answer 0, the epsilon comparator must still name a loser (2)"""
+        vs = add_case(eps, p, pm, p, pm, same=True)
+        if vs is None:
+            return
+        oracle_pair(eps, p, pm, p, pm, vs, same=True)
+        if eps is None and vs != 0:
+            ctx.oracle_failures.append({"what": "irreflexivity fails: compare(v, v)=%d for one list object v" % vs,
+                                        "input": {"p": p + [pm], "same_list_object_as_both_arguments": True},
+                                        "match": {"kind": "irrefl", "p": p + [pm]}})
+        if eps is not None and vs != 2:
+            ctx.oracle_failures.append({"what": "epsilon comparator does not reject a duplicate: compare(v, v)=%d for one list object v "
+                                                "(an individual offered to an archive again)" % vs,
+                                        "input": {"eps": eps, "p": p + [pm], "same_list_object_as_both_arguments": True},
+                                        "match": {"kind": "eps_dup", "p": p + [pm], "eps": eps}})
+
     for c in corpus:
         v = add_case(*c)
         if v is not None:
             oracle_pair(c[0], c[1], c[2], c[3], c[4], v)
+        self_pair(c[0], c[1], c[2])
+        self_pair(c[0], c[3], c[4])
 
     for _ in range(n_pairs):
         p, pm, q, qm = gen_pair(rng)
@@ -229,6 +258,9 @@ def run(ctx):
         if rng.random() < 0.3:   # the reversed pair and the reflexive pair: antisymmetry / irreflexivity on the implementation
             v2 = add_case(eps, q, qm, p, pm)
             vr = add_case(eps, p, pm, p, pm)
+            self_pair(eps, p, pm)                 # and the very same list object as both arguments
+            if rng.random() < 0.5:
+                self_pair(eps, q, qm)
             if eps is None:
                 if v2 != swap(v):
                     ctx.oracle_failures.append({"what": "antisymmetry fails: compare(p,q)=%d compare(q,p)=%d" % (v, v2),
@@ -262,6 +294,7 @@ def run(ctx):
 
     ctx.coq_compare("c01", HEADER, "c01_case", "nat", "c01_run", "Nat.eqb", cases, expected, meta, shard=500)
     ctx.rule = ("pairs/triples over value grids with ties, adjacent floats, huge/tiny magnitudes, markers from %r, epsilon lists %r; "
+                "reflexive pairs both as two equal lists and as ONE list object passed as both arguments (fresh and long-lived comparator); "
                 "a case is non-trivial when the two arguments are not the same vector+marker; distinct = distinct (comparator, p, q, markers, eps)") % (MARKERS, EPS_CHOICES)
     ctx.extra.update({"verdict_histogram": hist, "case_kinds": kinds, "transitivity_premises_met": trans_checked,
                       "history_mode_calls": kinds_hist["history_calls"]})
